@@ -23,7 +23,7 @@ RULE = ("generic part: (non-nullable pattern tree, sequence) pairs, trees exhaus
         "up to the length bound over {identifier, keywords of the shape, other keyword, '(', ')', '{', '=', '=>', other}; "
         "a case is non-trivial when the sequence is non-empty and at least one start position has a successful greedy "
         "run or at least one match is reported; distinct = distinct (pattern/shape, sequence) pairs")
-ASSUMPTIONS = ["derivative reference matcher correct (cross-checked in C13 against two other references)",
+ASSUMPTIONS = ["polynomial reference matcher correct (cross-checked against the derivative matcher here and in C13, and against re in C13)",
                "stateless token predicates (Name, Keyword, Symbol, Operator, TokenValue) are trusted as token classifiers; "
                "Balanced is NOT trusted: the shape reference tracks depth itself"]
 BOUNDS = {"quick": dict(tree=5, seq=5, rand=4000, rsize=12, rlen=12, hcap=60000, hrand=8000, hrlen=14, n=32),
@@ -123,19 +123,20 @@ def check_generic(ctx, matcher, tree, seq, expr=None):
     ctx.count("monitor.find_all")
     reported = [(p.start, p.end, p.tokens) for p in res]
 
-    def longest_end(a):
-        t, best = tree, None
-        for i in range(a, len(seq)):
-            t = R.deriv(t, seq[i])
-            if R.is_empty_language(t):
-                break
-            if R.nullable(t):
-                best = i + 1
-        return best
+    memo = {}
+    tseq = tuple(seq)
 
-    nontrivial, bad = judge(ctx, "", case, seq, reported,
-                            lambda s: R.greedy_end(tree, seq, s),
-                            lambda a, b: R.member(tree, seq[a:b]), longest_end,
+    def longest_end(a):
+        return R.p_longest_end(tree, tseq, a, memo)
+
+    def greedy(s):
+        g = R.p_greedy_end(tree, tseq, s, memo)
+        if R.size(tree) <= R.DERIVATIVES_ARE_CHEAP and g != R.greedy_end(tree, tseq, s):
+            ctx.inconclusive.append(f"references (polynomial vs derivative) disagree on the greedy run: {show(tree)} {seq} @{s}")
+        return g
+
+    nontrivial, bad = judge(ctx, "", case, seq, reported, greedy,
+                            lambda a, b: b in R.ends_viable(tree, tseq, a, memo)[0], longest_end,
                             {"pattern": show(tree), "sequence": "".join(seq)})
     if nontrivial:
         ctx.count("cases.with_match_or_greedy_success")
@@ -430,7 +431,7 @@ def run(shard, ctx):
     rng = rng_for(shard["seed"], "c14", shard["part"])
     for i in range(shard["rand"] // shard["parts"]):
         t = R.random_tree(rng, rng.randint(5, shard["rsize"]), ALPHABET)
-        if R.nullable(t):
+        if R.p_member(t, ()):
             continue
         for _ in range(3):
             s = tuple(rng.choice(ALPHABET) for _ in range(rng.randint(1, shard["rlen"])))
